@@ -190,10 +190,44 @@ func decodeStreamTextUnmarshaler(s *Stream, depth int64, unmarshaler encoding.Te
 	dst := make([]byte, len(src))
 	copy(dst, src)
 
-	if err := unmarshaler.UnmarshalText(dst); err != nil {
+	text, err := textOfLiteral(dst, unmarshaler, s.totalOffset())
+	if err != nil {
+		return err
+	}
+	if err := unmarshaler.UnmarshalText(text); err != nil {
 		return err
 	}
 	return nil
+}
+
+// textOfLiteral returns what a TextUnmarshaler is given for the JSON value src:
+// the contents of a string literal; any other value is a type error.
+func textOfLiteral(src []byte, unmarshaler encoding.TextUnmarshaler, offset int64) ([]byte, error) {
+	value := ""
+	if len(src) > 0 {
+		switch src[0] {
+		case '[':
+			value = "array"
+		case '{':
+			value = "object"
+		case '-', '0', '1', '2', '3', '4', '5', '6', '7', '8', '9':
+			value = "number"
+		case 't', 'f':
+			value = "bool"
+		}
+	}
+	if value != "" {
+		return nil, &errors.UnmarshalTypeError{
+			Value:  value,
+			Type:   reflect.TypeOf(unmarshaler),
+			Offset: offset,
+		}
+	}
+	text, ok := unquoteBytes(src)
+	if !ok {
+		return nil, errors.ErrSyntax("json: invalid string literal for a TextUnmarshaler", offset)
+	}
+	return text, nil
 }
 
 func decodeTextUnmarshaler(buf []byte, cursor, depth int64, unmarshaler encoding.TextUnmarshaler, p unsafe.Pointer) (int64, error) {
@@ -208,10 +242,11 @@ func decodeTextUnmarshaler(buf []byte, cursor, depth int64, unmarshaler encoding
 		*(*unsafe.Pointer)(p) = nil
 		return end, nil
 	}
-	if s, ok := unquoteBytes(src); ok {
-		src = s
+	text, err := textOfLiteral(src, unmarshaler, start)
+	if err != nil {
+		return 0, err
 	}
-	if err := unmarshaler.UnmarshalText(src); err != nil {
+	if err := unmarshaler.UnmarshalText(text); err != nil {
 		return 0, err
 	}
 	return end, nil
